@@ -65,6 +65,10 @@ type op struct {
 	EncOff bool   `json:"encoff,omitempty"`
 	IntOff bool   `json:"intoff,omitempty"`
 	PolSec string `json:"polsec,omitempty"`
+	// raw: the policy is marked CedarClientSideSession=true (what storeClientSession records);
+	// est: client and server halves share ONE cache (the process-wide one)
+	ClientSide bool `json:"clientside,omitempty"`
+	Shared     bool `json:"shared,omitempty"`
 	// resume
 	N     int    `json:"n,omitempty"`     // target session ordinal (also renew / inval)
 	Req   string `json:"req,omitempty"`   // legit idonly wrongkey rightkey unknown onechar
@@ -80,21 +84,22 @@ type history struct {
 }
 
 type sess struct {
-	id      string
-	key     []byte // nil = none
-	proto   string
-	usable  bool
-	custom  bool
-	exp     int64 // virtual seconds; -1 = never
-	lease   int64
-	dead    bool
-	authd   bool
-	user    string
-	valid   string
-	hasPol  bool
-	client  *security.SessionCache // client cache holding the client's copy (est only)
-	keyKind string
-	claimID string // mint: the secret claim id
+	id         string
+	key        []byte // nil = none
+	proto      string
+	usable     bool
+	custom     bool
+	exp        int64 // virtual seconds; -1 = never
+	lease      int64
+	dead       bool
+	authd      bool
+	user       string
+	valid      string
+	hasPol     bool
+	client     *security.SessionCache // client cache holding the client's copy (est only)
+	keyKind    string
+	claimID    string // mint: the secret claim id
+	clientSide bool   // the record is marked as the client-side record of a session negotiated with another server
 	// est only: what the cache entry recorded, and the identity the client was told
 	storedUser  string
 	storedAuthd bool
@@ -426,16 +431,23 @@ func (w *world) cacheOf(s *sess) *security.SessionCache {
 }
 
 // establish by a real full handshake; returns the new session
-func (w *world) establish(enc, authn bool) *sess {
+func (w *world) establish(enc, authn, shared bool) *sess {
 	cc, sc := net.Pipe()
 	ch := make(chan srvObs, 1)
 	go func() { ch <- serve(sc, serverConfigX(enc, w.custom, authn, false), clientAddr) }()
 	ccache := security.NewSessionCache()
+	peerName := srvName
+	if shared && w.custom == nil {
+		ccache = security.GetSessionCache() // client and server of the session live in one process
+		// (its own server name per establishment: a route cached by an earlier one must not turn this
+		// full handshake into a resumption)
+		peerName = fmt.Sprintf("<10.0.0.%d:9618>", 100+len(w.sess))
+	}
 	st := stream.NewStream(cc)
 	cfg := &security.SecurityConfig{
 		AuthMethods: []security.AuthMethod{security.AuthNone}, Authentication: security.SecurityOptional,
 		CryptoMethods: []security.CryptoMethod{security.CryptoAES}, Encryption: security.SecurityPreferred, Integrity: security.SecurityOptional,
-		Command: 421, PeerName: srvName, SessionCache: ccache,
+		Command: 421, PeerName: peerName, SessionCache: ccache,
 	}
 	if authn {
 		cfg.AuthMethods = []security.AuthMethod{security.AuthClaimToBe}
@@ -592,6 +604,11 @@ func (w *world) storeRaw(o op, n int) *sess {
 		}
 		s.valid = "421,60007"
 		_ = pol.Set("ValidCommands", s.valid)
+		if o.ClientSide {
+			s.clientSide, s.usable = true, false
+			s.keyKind += "+client-side"
+			_ = pol.Set("CedarClientSideSession", true)
+		}
 		if parts := strings.Split(o.PolSec, "/"); len(parts) == 2 { // the session's own Encryption / Integrity policy strings
 			_ = pol.Set("Encryption", parts[0])
 			_ = pol.Set("Integrity", parts[1])
@@ -640,7 +657,11 @@ func hexs(s string) string {
 	return b.String()
 }
 
-func (w *world) snapTerm() string {
+func (w *world) snapTerm() string { return w.snapTermWith(nil, false) }
+
+// snapTermWith: the snapshot as it was before `was` was dropped from the cache by the client half
+// (stored, found, not expired) when pretend is set
+func (w *world) snapTermWith(was *sess, pretend bool) string {
 	var xs []string
 	for i, s := range w.sess {
 		if s == nil {
@@ -648,6 +669,10 @@ func (w *world) snapTerm() string {
 		}
 		e, ok := w.cacheOf(s).VerifSessionKeys()[s.id]
 		_, lk := w.cacheOf(s).Lookup(s.id)
+		if pretend && s == was {
+			xs = append(xs, fmt.Sprintf("SS n%d %s true true false", i+1, core.Bool(s.custom)))
+			continue
+		}
 		xs = append(xs, fmt.Sprintf("SS n%d %s %s %s %s", i+1, core.Bool(s.custom), core.Bool(ok), core.Bool(lk), core.Bool(ok && e.IsExpired())))
 	}
 	return core.List(xs)
@@ -685,7 +710,7 @@ func runHistory(h history) runOut {
 		var term string
 		switch o.Kind {
 		case "est":
-			s := w.establish(o.Enc, o.Auth)
+			s := w.establish(o.Enc, o.Auth, o.Shared)
 			w.sess = append(w.sess, s)
 			if s == nil {
 				fail("establish-failed", "%s: full handshake against the honest server failed", what)
@@ -749,18 +774,22 @@ func runHistory(h history) runOut {
 			}
 		case "tick":
 			d := -time.Duration(o.Dt) * time.Second
-			for _, c := range []*security.SessionCache{security.GetSessionCache(), w.custom} {
+			shifted := map[*security.SessionEntry]bool{}
+			shift := func(c *security.SessionCache) {
 				if c != nil {
 					for _, e := range c.VerifSessionKeys() {
-						e.VerifShiftExpiration(d)
+						if !shifted[e] {
+							shifted[e] = true
+							e.VerifShiftExpiration(d)
+						}
 					}
 				}
 			}
+			shift(security.GetSessionCache())
+			shift(w.custom)
 			for _, s := range w.sess {
-				if s != nil && s.client != nil {
-					for _, e := range s.client.VerifSessionKeys() {
-						e.VerifShiftExpiration(d)
-					}
+				if s != nil {
+					shift(s.client)
 				}
 			}
 			w.now += int64(o.Dt)
@@ -839,6 +868,11 @@ func runHistory(h history) runOut {
 			if o.Req == "legit" && (target == nil || target.client == nil) {
 				continue
 			}
+			if o.Req == "legit" && target.client == security.GetSessionCache() && target.exp >= 0 && w.now > target.exp {
+				// shared cache: the client half's own id lookup would lazily delete the expired shared record
+				// before anything reaches the server; that is a client-cache effect (C07), not a resumption request
+				continue
+			}
 			if o.Req == "rightkey" && baseKey == nil && (target == nil || target.key == nil || len(target.key) != 32) {
 				continue
 			}
@@ -857,6 +891,8 @@ func runHistory(h history) runOut {
 				hook = func() { invRan, invRet = true, w.cacheOf(target).Invalidate(target.id) }
 			}
 			go func() { ch <- serveH(sc, serverConfigX(true, w.custom, false, o.Opt), peer, hook) }()
+			sharedLegit := o.Req == "legit" && target != nil && target.client == security.GetSessionCache()
+			_, storedBefore := security.GetSessionCache().VerifSessionKeys()[sid]
 			var ro reqObs
 			want := o.Want || o.Inv
 			cmd := o.Cmd
@@ -892,6 +928,8 @@ func runHistory(h history) runOut {
 				switch {
 				case target == nil:
 					fail("resumed-unknown-session", "%s: server resumed id %s which names no session", what, o.Req)
+				case target.clientSide:
+					fail("client-side-record-resumed", "%s: server resumed session %d, the client-side record of a session negotiated with another server; requester got user=%q authenticated=%v", what, o.N, so.user, so.authd)
 				case !w.live(target):
 					fail("dead-session-resumed", "%s: server resumed session %d which is expired or invalidated", what, o.N)
 				case !target.usable || target.key == nil:
@@ -947,7 +985,13 @@ func runHistory(h history) runOut {
 				if !bytes.Equal(ro.clientKey, so.streamKey) {
 					fail("keys-differ", "%s: client and server streams hold different keys after resumption", what)
 				}
-				if target != nil && ro.resumed && ro.clientUser != target.clientUser {
+				noID := func(u string) string { // both spellings say: no authenticated identity
+					if u == "unauthenticated@unmapped" {
+						return ""
+					}
+					return u
+				}
+				if target != nil && ro.resumed && noID(ro.clientUser) != noID(target.clientUser) {
 					fail("identity-not-restored", "%s: client resumed with user=%q, the original handshake told it %q", what, ro.clientUser, target.clientUser)
 				}
 			}
@@ -978,6 +1022,14 @@ func runHistory(h history) runOut {
 			if so.ok && so.command != cmd {
 				fail("command-not-restored", "%s: resumed command %d, requested %d", what, so.command, cmd)
 			}
+			if _, storedAfter := security.GetSessionCache().VerifSessionKeys()[sid]; sharedLegit && !so.ok && storedBefore && !storedAfter && !(target.exp >= 0 && w.now > target.exp) {
+				// client and server share the cache: the client's drop-on-failure (Invalidate of the session it
+				// could not resume) removed the shared record
+				out.steps = append(out.steps, fmt.Sprintf("St (%s) %s", term, w.snapTermWith(target, true)))
+				term = fmt.Sprintf("YInvalidate n%d false true", o.N)
+				target.dead = true
+				out.counts["shared-cache-client-dropped-record"]++
+			}
 		default:
 			continue
 		}
@@ -995,6 +1047,9 @@ func keyTerm(s *sess) string {
 func polTerm(s *sess) string {
 	if !s.hasPol {
 		return "PNone"
+	}
+	if s.clientSide {
+		return fmt.Sprintf("(PClient %s %s %s)", core.Bool(s.authd), core.Opt(s.user != "", hexs(s.user)), core.Opt(s.valid != "", hexs(s.valid)))
 	}
 	return fmt.Sprintf("(PSome %s %s %s)", core.Bool(s.authd), core.Opt(s.user != "", hexs(s.user)), core.Opt(s.valid != "", hexs(s.valid)))
 }
@@ -1033,7 +1088,7 @@ type replayCase struct {
 // Returns whether the replayed bytes were accepted as application data.
 func runReplay(rc replayCase) (accepted bool, detail string, recLen int, transcriptRepeats bool, err error) {
 	w := newWorld(history{})
-	s := w.establish(true, false)
+	s := w.establish(true, false, false)
 	if s == nil || s.key == nil {
 		return false, "", 0, false, errors.New("could not establish an encrypted session")
 	}
@@ -1118,12 +1173,12 @@ func randOp(c *core.Ctx, nsess int, custom bool) op {
 	case nsess == 0 || x < 14:
 		if r.Intn(2) == 0 {
 			enc := r.Intn(3) > 0
-			return op{Kind: "est", Enc: enc, Auth: r.Intn(2) == 0}
+			return op{Kind: "est", Enc: enc, Auth: r.Intn(2) == 0, Shared: r.Intn(3) == 0}
 		}
 		if r.Intn(4) == 0 {
 			return op{Kind: "mint", EncOff: r.Intn(2) == 0, IntOff: r.Intn(2) == 0}
 		}
-		return op{Kind: "raw", Key: keys[r.Intn(len(keys))], Custom: custom && r.Intn(2) == 0, Pol: pols[r.Intn(4)], NoExp: r.Intn(8) == 0, Inh: r.Intn(3) == 0,
+		return op{Kind: "raw", Key: keys[r.Intn(len(keys))], Custom: custom && r.Intn(2) == 0, Pol: pols[r.Intn(4)], NoExp: r.Intn(8) == 0, Inh: r.Intn(3) == 0, ClientSide: r.Intn(5) == 0,
 			PolSec: []string{"", "", "NO/NO", "NO/YES", "YES/NO", "YES/YES", "NEVER/NEVER"}[r.Intn(7)]}
 	case x < 62:
 		o := op{Kind: "resume", N: 1 + r.Intn(nsess), Req: reqs[r.Intn(len(reqs))], Want: r.Intn(3) > 0, Other: r.Intn(4) == 0, Opt: r.Intn(2) == 0, Cmd: []int{421, 60007, 0}[r.Intn(3)]}
@@ -1187,6 +1242,12 @@ func gen(c *core.Ctx) error {
 		{{Kind: "raw", Key: "aesgcm32", Pol: "auth", Inh: true}, R(1, "rightkey", true), {Kind: "tick", Dt: 3000}, R(1, "rightkey", true), R(1, "rightkey", false), R(1, "idonly", true)},
 		{{Kind: "mint"}, R(1, "rightkey", true), {Kind: "tick", Dt: 1500}, R(1, "rightkey", true), {Kind: "tick", Dt: 1500}, R(1, "rightkey", true), R(1, "idonly", true), {Kind: "renew", N: 1}, R(1, "rightkey", false)},
 		{{Kind: "raw", Key: "aes32", Pol: "auth", Inh: true}, {Kind: "tick", Dt: 3000}, {Kind: "renew", N: 1}, R(1, "rightkey", true), {Kind: "sweep"}, R(1, "rightkey", true)},
+		// the client-side record of a session negotiated with another server is not resumed by the server half
+		{{Kind: "raw", Key: "aes32", Pol: "auth", ClientSide: true}, R(1, "rightkey", true), R(1, "idonly", true), {Kind: "resume", N: 1, Req: "rightkey", Opt: true, Cmd: 421}},
+		{{Kind: "raw", Key: "aesgcm32", Pol: "unauth", ClientSide: true, Custom: true}, R(1, "rightkey", true), R(1, "rightkey", false)},
+		// client and server halves of one session share the process-wide cache
+		{{Kind: "est", Enc: true, Shared: true}, R(1, "legit", true), R(1, "idonly", true), {Kind: "tick", Dt: 500}, R(1, "legit", true), {Kind: "inval", N: 1}, R(1, "legit", true)},
+		{{Kind: "est", Enc: true, Auth: true, Shared: true}, R(1, "legit", true), {Kind: "est", Enc: true, Shared: true}, R(2, "legit", true), R(1, "legit", true)},
 		// ids derived from a stored id: only the exact live id may resume
 		{{Kind: "mint"}, {Kind: "resume", N: 1, Req: "rightkey", Want: true, Derive: "filetrans", Cmd: 421}, {Kind: "resume", N: 1, Req: "rightkey", Derive: "filetrans", Opt: true, Cmd: 421},
 			{Kind: "resume", N: 1, Req: "idonly", Want: true, Derive: "filetrans", Cmd: 421}, {Kind: "resume", N: 1, Req: "rightkey", Want: true, Derive: "xfer", Cmd: 421},
@@ -1247,6 +1308,7 @@ func gen(c *core.Ctx) error {
 	}
 	for _, k := range []kind{
 		{op{Kind: "est", Enc: true}, "legit"},
+		{op{Kind: "raw", Key: "aes32", Pol: "auth", ClientSide: true}, "rightkey"},
 		{op{Kind: "est", Enc: true, Auth: true}, "legit"},
 		{op{Kind: "est", Enc: false}, "legit"},
 		{op{Kind: "raw", Key: "aes32", Pol: "auth"}, "rightkey"},
